@@ -1,12 +1,127 @@
 import D2V.Model.Edit
-/-! C41 — editing API (placeholder lemmas; replaced by the real development) -/
+/-!
+  C41 — edits on a board stay within that board.
+
+  Abstract board semantics (d2ir `compileBoards`): board `i` has its own declarations `own[i]` and possibly a base
+  `bases[i] < i` (parent board for a scenario and for the first step, previous step for later steps, none for the root
+  and for layers); its compiled content is `overlay (content base) own[i]`.  An edit addressed to board `t` changes
+  `own[t]` only.  Theorem: every board that does not depend on `t` (`dependsOn`, the relation the driver uses to decide
+  which boards of the REAL before/after pair must be unchanged) has the same content afterwards — for every overlay
+  function, every number of boards, every inheritance forest.
+-/
 namespace D2V.Edit
 
-theorem C41_firstFailing_none_iff (cs : List Clause) : firstFailing cs = none ↔ allHold cs = true := by
-  induction cs with
-  | nil => simp [firstFailing, allHold]
-  | cons c r ih =>
-    unfold firstFailing
-    cases h : c.holds <;> simp [allHold, h] at * <;> exact ih
+theorem getD_append_lt {α : Type} (a : List α) (x d : α) (j : Nat) (h : j < a.length) : (a ++ [x]).getD j d = a.getD j d := by
+  simp [List.getD, List.getElem?_append_left h]
+
+theorem scoped_aux (overlay : Diagram → Diagram → Diagram) (t : Nat) :
+    ∀ (bases : List (Option Nat)) (os os' : List Diagram) (accD : List Bool) (accC accC' : List Diagram),
+      accC.length = accD.length → accC'.length = accD.length → os.length = os'.length →
+      (∀ k, accD.length + k ≠ t → os[k]? = os'[k]?) →
+      (∀ k j, bases[k]? = some (some j) → j < accD.length + k) →
+      (∀ i, accD.getD i true = false → accC[i]? = accC'[i]?) →
+      ∀ i, (depsAux t bases accD).getD i true = false →
+        (contentsAux overlay bases os accC)[i]? = (contentsAux overlay bases os' accC')[i]? := by
+  intro bases
+  induction bases with
+  | nil =>
+    intro os os' accD accC accC' _ _ _ _ _ hinv i hi
+    cases os <;> cases os' <;> simpa [depsAux, contentsAux] using hinv i (by simpa [depsAux] using hi)
+  | cons b r ih =>
+    intro os os' accD accC accC' hc hc' hlen hsame hbase hinv i hi
+    cases os with
+    | nil =>
+      cases os' with
+      | nil =>
+        -- no own declarations left: both sides stop; the dependency list only grows at indices ≥ accD.length
+        simp only [contentsAux]
+        by_cases hlt : i < accD.length
+        · apply hinv i
+          -- the prefix of the dependency list is accD
+          have hpre : ∀ (bs : List (Option Nat)) (acc : List Bool), i < acc.length → (depsAux t bs acc).getD i true = acc.getD i true := by
+            intro bs
+            induction bs with
+            | nil => intro acc _; rfl
+            | cons b2 r2 ih2 =>
+              intro acc hl
+              simp only [depsAux]
+              rw [ih2 _ (by simp; omega), getD_append_lt _ _ _ _ hl]
+          rw [← hpre (b :: r) accD hlt]; exact hi
+        · have h1 : accC[i]? = none := by rw [List.getElem?_eq_none]; omega
+          have h2 : accC'[i]? = none := by rw [List.getElem?_eq_none]; omega
+          rw [h1, h2]
+      | cons o' os' => simp at hlen
+    | cons o os =>
+      cases os' with
+      | nil => simp at hlen
+      | cons o' os' =>
+        simp only [depsAux, contentsAux]
+        refine ih os os' (accD ++ [depBit t accD b]) (accC ++ [contentOf overlay accC b o])
+          (accC' ++ [contentOf overlay accC' b o'])
+          (by simp [hc]) (by simp [hc']) (by simpa using hlen) ?_ ?_ ?_ i hi
+        · intro k hk
+          have := hsame (k + 1) (by simp at hk ⊢; omega)
+          simpa using this
+        · intro k j hkj
+          have := hbase (k + 1) j (by simpa using hkj)
+          simp; omega
+        · -- the invariant for the extended accumulators
+          intro i' hi'
+          by_cases hlt : i' < accD.length
+          · rw [List.getElem?_append_left (by omega), List.getElem?_append_left (by omega)]
+            apply hinv
+            rwa [getD_append_lt _ _ _ _ hlt] at hi'
+          · by_cases heq : i' = accD.length
+            · subst heq
+              have hd : (accD ++ [depBit t accD b]).getD accD.length true = depBit t accD b := by
+                simp [List.getD]
+              rw [hd] at hi'
+              unfold depBit at hi'
+              simp only [Bool.or_eq_false_iff, beq_eq_false_iff_ne] at hi'
+              have ho : o = o' := by
+                have := hsame 0 (by simpa using hi'.1)
+                simpa using this
+              have e1 : (accC ++ [contentOf overlay accC b o])[accD.length]? = some (contentOf overlay accC b o) := by
+                rw [← hc]; simp
+              have e2 : (accC' ++ [contentOf overlay accC' b o'])[accD.length]? = some (contentOf overlay accC' b o') := by
+                rw [← hc']; simp
+              rw [e1, e2, ho]
+              cases b with
+              | none => rfl
+              | some j =>
+                simp only [contentOf]
+                have hj : j < accD.length := by
+                  have := hbase 0 j (by simp)
+                  simpa using this
+                have hjd : accD.getD j true = false := by
+                  have h2 := hi'.2
+                  simp only [List.getD] at h2 ⊢
+                  rw [List.getElem?_eq_getElem hj] at h2 ⊢
+                  simpa using h2
+                have := hinv j hjd
+                simp only [List.getD, this]
+            · have h1 : (accC ++ [contentOf overlay accC b o])[i']? = none := by
+                rw [List.getElem?_eq_none]; simp; omega
+              have h2 : (accC' ++ [contentOf overlay accC' b o'])[i']? = none := by
+                rw [List.getElem?_eq_none]; simp; omega
+              rw [h1, h2]
+
+/-- **C41**: an edit of board `t` (only `own[t]` changes) leaves the content of every board that does not inherit from
+    `t` unchanged. -/
+theorem edit_scoped (overlay : Diagram → Diagram → Diagram) (bases : List (Option Nat)) (own own' : List Diagram) (t : Nat)
+    (hlen : own.length = own'.length)
+    (hsame : ∀ k : Nat, k ≠ t → own[k]? = own'[k]?)
+    (hbase : ∀ k j : Nat, bases[k]? = some (some j) → j < k) :
+    ∀ i, (dependsOn bases t).getD i true = false →
+      (contents overlay bases own)[i]? = (contents overlay bases own')[i]? := by
+  intro i hi
+  exact scoped_aux overlay t bases own own' [] [] [] rfl rfl hlen (by simpa using hsame) (by simpa using hbase)
+    (by intro i h; simp [List.getD] at h) i hi
+
+/-- the target itself depends on itself -/
+example : dependsOn [none, some 0, some 1, none, some 3] 1 = [false, true, true, false, false] := by decide
+
+/-- a layer (no base) below the edited board is unaffected, a scenario / later step is affected -/
+example : dependsOn [none, some 0, none, some 1] 0 = [true, true, false, true] := by decide
 
 end D2V.Edit
